@@ -29,6 +29,25 @@ def vc_filter(vc):
     return True
 
 
+def canaries(pr):
+    """Must-fail canary for the engine contracts (vacuity guard on every run): with the same preconditions (engine_inv ...), the claim 'the event's
+    amount is handed on unreduced' must be refuted for get_acquired_lot_for_taxable_event - if it verified, engine_inv (or an assumed contract) would be
+    contradictory and everything proved about the engine vacuous."""
+    def unreduced_amount(pr):
+        import copy
+        q = "rp2.accounting_engine.AccountingEngine.get_acquired_lot_for_taxable_event"
+        saved = S.CONTRACTS[q]
+        k = copy.copy(saved)
+        k.ensures_ = [("amount_handed_on_unreduced", lambda s: s.result.taxable_event_amount.t == s.a.taxable_event_amount.t)]
+        k.modifies_, k.modifies_declared, k.exc_ensures_ = [], False, []
+        S.CONTRACTS[q] = k
+        try:
+            return pr.gen_fn(q, canary=True)
+        finally:
+            S.CONTRACTS[q] = saved
+    return [("engine_hand_over_without_subtraction_must_fail", unreduced_amount)]
+
+
 def native(desc):
     from props import C09
     return C09.native(desc)
